@@ -52,6 +52,9 @@ func init() {
 			for i := 0; i < nr/40; i++ {
 				cs = append(cs, Case{Kind: "hostctx", Seed: h.Mix(seed, 0xC01C, uint64(i))})
 			}
+			for f := h.Frontier; f <= h.Shanghai; f++ {
+				cs = append(cs, Case{Kind: "directed", P: []int64{int64(f)}, Seed: h.Mix(seed, 0xC01D, uint64(f))})
+			}
 			// every DUPn / SWAPn / LOGn / PUSHn at the stack heights around its declared minimum and maximum
 			for _, f := range []h.Fork{h.Frontier, h.Shanghai} {
 				cs = append(cs, Case{Kind: "stackop", P: []int64{int64(f)}})
@@ -166,6 +169,14 @@ func dualCompare(res *CaseResult, dc DualCase, cfgs []forkCfg) (inDomain bool) {
 
 func runC01(c Case, tier string) (res CaseResult) {
 	switch c.Kind {
+	case "directed":
+		// hand-written families around creation and destruction (see c02.go: the same programs, here under the outcome oracle)
+		f := h.Fork(c.P[0])
+		for _, dc := range append(selfdestructDuals(f), createEdgeDuals(f, h.NewRNG(c.Seed))...) {
+			if dualCompare(&res, dc, c01Cfgs[:2]) {
+				res.Count("directed_cases", 1)
+			}
+		}
 	case "runtime":
 		runC01Runtime(c, &res)
 	case "hostctx":
